@@ -75,41 +75,76 @@ func (c *Ctx) extractOpsMethod(fn *ssa.Function) *opsMethod {
 		return m
 	}
 	first := fn.Params[1]
+	// which types of the first operand can reach each block (forward dataflow over the CFG: the
+	// spelling of the dispatch - switch, if-chain, early returns, negated tests - does not matter)
+	sets := c.typeSets(fn, first, pkgVariants, "Variant", m.typeNames)
+	full := uint64(0)
+	for k := range m.typeNames {
+		full |= 1 << uint(k)
+	}
 	for _, b := range fn.Blocks {
-		ifi, ok := b.Instrs[len(b.Instrs)-1].(*ssa.If)
-		if !ok {
-			continue
+		if ifi, ok := b.Instrs[len(b.Instrs)-1].(*ssa.If); ok {
+			recv, k, _, ok := c.typeTestConst(ifi.Cond, pkgVariants, "Variant")
+			if ok && k != 0 && recv == ssa.Value(first) {
+				if m.mainBlock == nil || b.Dominates(m.mainBlock) {
+					m.mainBlock = b
+				}
+			}
 		}
-		recv, k, op, ok := c.typeTestConst(ifi.Cond, pkgVariants, "Variant")
-		if !ok || op != token.EQL || k == 0 {
-			continue
+	}
+	addCell := func(b *ssa.BasicBlock, cell opCell) {
+		set := sets[b] &^ 1 &^ (1 << 63) // Null (constant 0) is handled by the null policy
+		if set == full&^1 || set == 0 {
+			return // not specific to any first-operand type
 		}
-		// receiver: the first operand, or its conversion (Pow converts value1 itself)
-		isFirst := recv == ssa.Value(first)
-		if !isFirst {
-			continue
+		for k, tn := range m.typeNames {
+			if k != 0 && set&(1<<uint(k)) != 0 {
+				m.cells[tn] = append(m.cells[tn], cell)
+			}
 		}
-		if m.mainBlock == nil || b.Dominates(m.mainBlock) {
-			m.mainBlock = b
+	}
+	returned := map[ssa.Value]bool{}
+	for _, ret := range returnsOf(fn) {
+		if len(ret.Results) > 0 {
+			for _, l := range phiLeaves(ret.Results[0]) {
+				returned[l] = true
+			}
 		}
-		tn := m.typeNames[k]
-		body := b.Succs[0]
-		m.caseBody[tn] = body
-		for _, d := range dominatedBlocks(body) {
-			for _, in := range d.Instrs {
-				call, ok := in.(*ssa.Call)
-				if !ok {
+	}
+	for _, b := range fn.Blocks {
+		// narrowest block per type, for messages
+		set := sets[b] &^ 1 &^ (1 << 63)
+		if set != 0 && set != full&^1 {
+			for k, tn := range m.typeNames {
+				if k != 0 && set&(1<<uint(k)) != 0 && m.caseBody[tn] == nil {
+					m.caseBody[tn] = b
+				}
+			}
+		}
+		for _, in := range b.Instrs {
+			call, ok := in.(*ssa.Call)
+			if !ok {
+				continue
+			}
+			f := calleeObj(call.Common())
+			if f == nil {
+				continue
+			}
+			switch {
+			case strings.HasPrefix(f.Name(), "SetAs") && recvNamed(f) == "Variant":
+				// result.SetAs<T>(e) on a result variable of this method
+				rv, isCall := callRecv(call.Common()).(*ssa.Call)
+				if !isCall {
 					continue
 				}
-				f := calleeObj(call.Common())
-				if f == nil || !strings.HasPrefix(f.Name(), "SetAs") || recvNamed(f) != "Variant" {
-					continue
-				}
-				if callRecv(call.Common()) != m.res {
+				if _, isEmpty := c.callTo(rv, pkgVariants, "", "EmptyVariant"); !isEmpty || !returned[rv] {
 					continue
 				}
 				args := callArgs(call.Common())
-				m.cells[tn] = append(m.cells[tn], opCell{setter: strings.TrimPrefix(f.Name(), "SetAs"), expr: m.ex.str(args[0]), pos: call.Pos(), call: call})
+				addCell(b, opCell{setter: strings.TrimPrefix(f.Name(), "SetAs"), expr: m.ex.str(args[0]), pos: call.Pos(), call: call})
+			case strings.HasPrefix(f.Name(), "VariantFrom") && c.relPkg(f.Pkg()) == pkgVariants && returned[call] && len(call.Call.Args) == 1:
+				// return VariantFrom<T>(e), nil
+				addCell(b, opCell{setter: strings.TrimPrefix(f.Name(), "VariantFrom"), expr: m.ex.str(call.Call.Args[0]), pos: call.Pos(), call: call})
 			}
 		}
 	}
@@ -388,6 +423,17 @@ func (c *Ctx) describeReturn(m *opsMethod, ret *ssa.Return, path []*ssa.BasicBlo
 	}
 	if !isNilConst(ret.Results[1]) {
 		return "error"
+	}
+	if call, ok := ret.Results[0].(*ssa.Call); ok && ret.Results[0] != m.res {
+		if f := calleeObj(call.Common()); f != nil && c.relPkg(f.Pkg()) == pkgVariants {
+			switch {
+			case f.Name() == "EmptyVariant":
+				return "Null"
+			case strings.HasPrefix(f.Name(), "VariantFrom") && len(call.Call.Args) == 1:
+				st := strings.TrimPrefix(f.Name(), "VariantFrom") + "(" + m.ex.str(call.Call.Args[0]) + ")"
+				return strings.Replace(st, "Boolean(", "Bool(", 1)
+			}
+		}
 	}
 	if ret.Results[0] != m.res {
 		return "value:" + m.ex.str(ret.Results[0])
@@ -798,4 +844,57 @@ func (c *Ctx) totalEquality() bool {
 		}
 	}
 	return n == 1
+}
+
+// typeSets: for every block of fn, the set of type constants (bit k = constant k) that recv.Type() can
+// still have on entry, by forward dataflow: an edge out of `if recv.Type() == K` keeps only K on the
+// true side and removes K on the false side (mirrored for !=); joins are unions.
+func (c *Ctx) typeSets(fn *ssa.Function, recv ssa.Value, typePkg, typeRecv string, names map[int64]string) map[*ssa.BasicBlock]uint64 {
+	full := uint64(0)
+	for k := range names {
+		if k >= 0 && k < 63 {
+			full |= 1 << uint(k)
+		}
+	}
+	full |= 1 << 63 // any other value
+	sets := map[*ssa.BasicBlock]uint64{}
+	if len(fn.Blocks) == 0 {
+		return sets
+	}
+	sets[fn.Blocks[0]] = full
+	edge := func(p, s *ssa.BasicBlock, in uint64) uint64 {
+		ifi, ok := p.Instrs[len(p.Instrs)-1].(*ssa.If)
+		if !ok || p.Succs[0] == p.Succs[1] {
+			return in
+		}
+		r, k, op, ok := c.typeTestConst(ifi.Cond, typePkg, typeRecv)
+		if !ok || !(r == recv || c.sameValue(r, recv)) || k < 0 || k >= 63 {
+			return in
+		}
+		isTrueEdge := p.Succs[0] == s
+		eq := (op == token.EQL) == isTrueEdge
+		if eq {
+			return in & (1 << uint(k))
+		}
+		return in &^ (1 << uint(k))
+	}
+	for changed := true; changed; {
+		changed = false
+		for _, b := range fn.Blocks {
+			if b == fn.Blocks[0] {
+				continue
+			}
+			var u uint64
+			for _, p := range b.Preds {
+				if in, ok := sets[p]; ok {
+					u |= edge(p, b, in)
+				}
+			}
+			if u != sets[b] {
+				sets[b] = u
+				changed = true
+			}
+		}
+	}
+	return sets
 }
